@@ -308,6 +308,14 @@ def _apply_transformer(text_of_transformer: str, symbols, model_text: str, cache
         raise ValueError('harness: unexpected validation error')
     space = _NoFiles()
     tr = ddv.value_of_any_dependency(None).primitive(ApplicationEnvironment(None, None, space, 2 ** 20))
+    if isinstance(model_text, tuple):
+        # ONE transformer object applied to several texts in turn (as `every file : contents -transformed-by T ...` does)
+        outs = []
+        for mt in model_text:
+            result = tr.transform(constant_str.string_source(mt, space))
+            with result.contents().as_lines as lines:
+                outs.append(list(lines))
+        return outs
     model = constant_str.string_source(model_text, space)
     result = tr.transform(model)
     with result.contents().as_lines as lines:
@@ -474,23 +482,36 @@ def k4_line_nums(a0: int, b0: int, a1: int, b1: int, a2: int, b2: int) -> bool:
     kinds, n = case['kinds'], case['n']
     _install_ints([a0, b0, a1, b1, a2, b2])
     expr = 'filter -line-nums ' + ' '.join(_range_text(k, i) for i, k in enumerate(kinds))
+    vals = ((a0, b0), (a1, b1), (a2, b2))
+
+    def expected(text: str, n_lines: int):
+        src_lines = text.split('\n')
+        full = [l + '\n' for l in src_lines[:-1]] + ([src_lines[-1]] if src_lines[-1] != '' else [])
+        exp = []
+        for i, l in enumerate(full):
+            num = i + 1
+            keep = False
+            for j, k in enumerate(kinds):
+                if _in_range(k, vals[j][0], vals[j][1], num, n_lines):
+                    keep = True
+            if case.get('oracle_bug') and num == n_lines:
+                keep = not keep
+            if keep:
+                exp.append(l)
+        return exp
+
+    if case.get('then'):
+        # the same transformer object on a text of n lines, then on texts of other lengths, then on n lines again
+        ns = (n,) + tuple(case['then']) + (n,)
+        texts = tuple(_text(m, False) for m in ns)
+        outs = _apply_transformer(expr, xly.symbol_table({}), texts, cache=False)
+        ok = True
+        for m, text, out in zip(ns, texts, outs):
+            ok = ok and out == expected(text, m)
+        return ob.post(ok)
     text = _text(n, case.get('unterminated', False))
     out = _apply_transformer(expr, xly.symbol_table({}), text, cache=False)
-    vals = ((a0, b0), (a1, b1), (a2, b2))
-    src_lines = text.split('\n')
-    full = [l + '\n' for l in src_lines[:-1]] + ([src_lines[-1]] if src_lines[-1] != '' else [])
-    exp = []
-    for i, l in enumerate(full):
-        num = i + 1
-        keep = False
-        for j, k in enumerate(kinds):
-            if _in_range(k, vals[j][0], vals[j][1], num, n):
-                keep = True
-        if case.get('oracle_bug') and num == n:
-            keep = not keep
-        if keep:
-            exp.append(l)
-    return ob.post(out == exp)
+    return ob.post(out == expected(text, n))
 
 
 def _tree_name(t) -> str:
@@ -580,6 +601,18 @@ def obligations(tier: str) -> List[Ob]:
                 k4_cases.append((ks, n, False, True))
         for ks in (('single', 'both', 'lower'), ('both', 'upper', 'single'), ('both', 'both', 'both'), ('single', 'single', 'single')):
             k4_cases.append((ks, 3, False, True))
+    # one transformer object applied to texts of several lengths in turn
+    reapply = [(('both', 'single'), 3, (4,)), (('lower', 'upper'), 2, (4,)), (('single',), 2, (3,)), (('both',), 3, (1, 4))]
+    if tier != 'quick':
+        reapply += [(ks, 3, (4, 1)) for ks in itertools.product(RANGE_KINDS, repeat=2) if ks not in (('both', 'single'), ('lower', 'upper'))]
+    for ks, n, then in reapply:
+        obs.append(Ob(name='K4:reapply:%s:N%d-%s' % ('+'.join(ks), n, '-'.join(map(str, then))), fn='k4_line_nums',
+                      case=dict(kinds=ks, n=n, then=then, window=True), kernel='K4',
+                      bound='ONE `filter -line-nums` transformer with ranges of forms %s, every bound in [-N-3, N+3] (N = %d), applied '
+                            'in turn to texts of %s lines' % (list(ks), n, list((n,) + then + (n,))),
+                      timeout=2400, real=real_k4, stubs=(STUB_INT,),
+                      entry='parse_string_transformer.parsers().full -> ONE primitive -> transform(text_i).as_lines for each text',
+                      outside=('bounds outside [-N-3, N+3]',)))
     for ks, n, unt, window in k4_cases:
         obs.append(Ob(name='K4:%s:N%d%s' % ('+'.join(ks), n, 'u' if unt else ''), fn='k4_line_nums',
                       case=dict(kinds=ks, n=n, unterminated=unt, window=window), kernel='K4',
